@@ -539,6 +539,36 @@ def exhaustive_pq(maxlen):
             yield lines
 
 
+def exhaustive_pos(maxlen):
+    """All PosPriorityQueue histories up to `maxlen` ops over a small alphabet (boosting off)."""
+    alpha = ["app 0", "app 1", "app -1", "ins 0", "ins 1", "ins 2", "pop", "rm 0", "res 0 1", "res 1 -1", "rall"]
+    for n in range(1, maxlen + 1):
+        for seq in itertools.product(alpha, repeat=n):
+            lines, live, nxt = ["pos 0 new 0"], [], 1
+            for s in seq:
+                t = s.split()
+                if t[0] == "app":
+                    lines.append(f"pos 0 appendpri {nxt} {t[1]}")
+                    live.append(nxt)
+                    nxt += 1
+                elif t[0] == "ins":
+                    lines.append(f"pos 0 insert {t[1]} {nxt}")
+                    live.append(nxt)
+                    nxt += 1
+                elif t[0] == "pop":
+                    lines.append("pos 0 popleft")
+                elif t[0] == "rm":
+                    x = live[int(t[1])] if int(t[1]) < len(live) else 999
+                    lines.append(f"pos 0 find {x} 1")
+                elif t[0] == "res":
+                    x = live[int(t[1])] if int(t[1]) < len(live) else 999
+                    lines.append(f"pos 0 resched {x} {t[2]}")
+                elif t[0] == "rall":
+                    lines.append("pos 0 reschedall")
+            lines.append("pos 0 drain")
+            yield lines
+
+
 def run(ctx):
     rng = ctx.rng
     explore(ctx, corpus_cases(), label="corpus: ")
@@ -571,6 +601,15 @@ def run(ctx):
                 batch = []
         explore(ctx, batch, label="exhaustive: ")
         ctx.extra["exhaustive_pq_histories_len<=4"] = n + len(batch)
+        batch, n = [], 0
+        for lines in exhaustive_pos(4):
+            batch.append(lines)
+            if len(batch) >= 5000:
+                explore(ctx, batch, label="exhaustive: ")
+                n += len(batch)
+                batch = []
+        explore(ctx, batch, label="exhaustive: ")
+        ctx.extra["exhaustive_pos_histories_len<=4"] = n + len(batch)
     ctx.extra.pop("_lok", None)
     ctx.extra.pop("_ln", None)
 
